@@ -60,3 +60,10 @@ Proof.
   apply Forall_nil.
 Qed.
 End Pair.
+
+(* changing a modulation index after the first joint draw: the next draw is that of a fresh
+   coordinator with the new index (same deviates) *)
+Lemma law_lognormal_pair_rebuild rho b0 b1 b0old g0 g1 g2 g3 :
+  firstn 4 (lognormal_pair_rebuild (OO:=ROps) rho b0 b1 b0old g0 g1 g2 g3)
+  = skipn 4 (lognormal_pair_rebuild (OO:=ROps) rho b0 b1 b0old g0 g1 g2 g3).
+Proof. autounfold with gen; ops_R; cbn [firstn skipn]. list_eq deep. Qed.
